@@ -73,7 +73,7 @@ def register(rng):
         return m
     E("rel:np.linalg.eig:values", "m", "np.linalg.eig(m)[0].real", [[F(sym(rng.choice([2, 3])))] for _ in range(NCASES)], ["np.linalg.eig"], cat="rel", kind="rel", props=["C17"], tol=1e-9, modes=["conc"])
     E("rel:np.linalg.eig:dtype", "m", "np.linalg.eig(m)[0]", [[F([[2.0, 0.5], [0.5, 1.0]])]], ["np.linalg.eig"], cat="rel", kind="rel", props=["C17"], tol=1e-9, modes=["conc"],
-      limitation="numpy >= 2.4 returns complex128 eigenvalues from linalg.eig for EVERY input (zero imaginary parts for symmetric input); the C17 / C18 contracts model real (float) eigenvalues: values agree, the dtype class does not "
+      limitation="the installed numpy 2.5.3 returns complex128 eigenvalues from linalg.eig for EVERY input (zero imaginary parts for symmetric input); the C17 / C18 contracts model real (float) eigenvalues: values agree, the dtype class does not "
                  "(contracts/C17.py NOT_DECIDED lists complex eig output for asymmetric input only)")
     E("rel:np.linalg.eig:asymmetric", "m", "np.linalg.eig(m)[0].real", [[F([[1.0, 2.0], [0.0, 3.0]])]], ["np.linalg.eig"], cat="rel", kind="rel", props=["C17"], tol=1e-9, modes=["conc"])
     E("rel:np.linalg.eigh", "m", "np.linalg.eigh(m)", [[F(sym(rng.choice([1, 2, 3, 4])))] for _ in range(NCASES)], ["np.linalg.eigh"], cat="rel", kind="rel", props=["C11"], tol=1e-9, extra_facts=_eigh_facts, modes=["conc"])
